@@ -496,6 +496,19 @@ func (r *c01Run) runCase(p *pgProgram, id int) {
 	r.cw.Add(fmt.Sprintf("(%d, %s,\n  %s,\n  %s, (%s, %s),\n  %s)", id, p.T.CoqT(bound, c01Statics), aTerm, pgCoqNames(p.ArgNames),
 		CoqBool(lazy), CoqBool(excl), CoqList(tuples)))
 
+	// ---- Go-side oracle for template programs: the value computed natively by the harness
+	if p.Oracle != nil {
+		sum.Count("boosted_shapes", "lazy stage bound by let, further lets, consumed later: "+p.Oracle.Stage)
+		for i, tu := range p.Tuples {
+			if exp, ok := p.Oracle.Expected(tu); ok && (off[i].Canon != exp || on[i].Canon != exp) {
+				sum.GoViolations = append(sum.GoViolations, GoViolation{CaseID: id,
+					What: "a lazy list stage created before further lets and consumed after them disturbs the locals (or computes a wrong list)",
+					Sig:  "lazy stage " + p.Oracle.Stage + " consumed after further lets", Human: human,
+					Expected: exp, Observed: "optimizer off: " + off[i].Human + " / on: " + on[i].Human})
+				break
+			}
+		}
+	}
 	// ---- Go-side oracle: the optimizer is unobservable
 	if optDiff && !excl {
 		for i := range off {
@@ -515,6 +528,17 @@ func c01Tup(vals ...*Tree) []*Tree { return vals }
 func c01Ti(i int) *Tree            { return &Tree{Kind: "int", I: i} }
 func c01Tb(b bool) *Tree           { return &Tree{Kind: "bool", B: b} }
 func c01Ts(s string) *Tree         { return &Tree{Kind: "str", S: s} }
+
+func c01LazyTuples() [][]*Tree {
+	li := func(vs ...int) *Tree {
+		t := &Tree{Kind: "list", Repr: "eager"}
+		for _, v := range vs {
+			t.Items = append(t.Items, c01Ti(v))
+		}
+		return t
+	}
+	return [][]*Tree{c01Tup(li(1, 1, 2, 2, 3), c01Ti(100)), c01Tup(li(4, 0, 0, 7), c01Ti(-5)), c01Tup(li(2, 2), c01Ti(31))}
+}
 
 func c01Corpus() []*pgProgram {
 	x := func() *pgNode { return pgNId("x") }
@@ -560,7 +584,13 @@ func c01Corpus() []*pgProgram {
 			pgNClo([]string{"q"}, pgNOp("-", pgNOp("*", x(), pgNId("q")), pgNId("y"))), pgNClo([]string{"q"}, pgNId("q"))))),
 			pgNInt(0)), pgNInt(2)), pgNInt(3)),
 			ArgNames: []string{"x", "y"}, Tuples: [][]*Tree{c01Tup(c01Ti(5), c01Ti(7)), c01Tup(c01Ti(1), c01Ti(9)), c01Tup(c01Ti(-2), c01Ti(4))}, Stream: "corpus"},
-		// recursion
+		// recursion (below); before it: every lazy stage bound by let, two or three further lets, consumed later
+		pgLazyLetProgram("compact", "size", 1, 2, false, c01LazyTuples()),
+		pgLazyLetProgram("combine", "sum", 3, 2, true, c01LazyTuples()),
+		pgLazyLetProgram("number", "sum", 1, 3, false, c01LazyTuples()),
+		pgLazyLetProgram("iir", "sum", 2, 2, true, c01LazyTuples()),
+		pgLazyLetProgram("map", "sum", 1, 2, false, c01LazyTuples()),
+		pgLazyLetProgram("accept", "size", 1, 2, true, c01LazyTuples()),
 		mk(pgNFunc("fac", []string{"n"}, pgNIf(pgNOp("<=", pgNId("n"), pgNInt(0)), pgNInt(1), pgNOp("*", pgNId("n"), pgNCall("closure", pgNId("fac"), pgNOp("-", pgNId("n"), pgNInt(1))))),
 			pgNCall("closure", pgNId("fac"), pgNOp("%", x(), pgNInt(6)))), ints),
 	}
@@ -574,7 +604,7 @@ func cmdC01(seed int64, tier, outDir string) {
 	lim := syscall.Rlimit{Cur: 24 << 30, Max: 24 << 30}
 	_ = syscall.Setrlimit(syscall.RLIMIT_AS, &lim)
 	c01Setup()
-	n, maxNodes := 1500, 40
+	n, maxNodes := 1200, 40
 	if tier == "thorough" {
 		n, maxNodes = 40000, 120
 	}
